@@ -14,7 +14,8 @@ var symEpoch = time.Date(2024, time.January, 7, 0, 0, 0, 0, time.UTC)
 type SymTime struct {
 	Abs        *Term
 	Loc        *time.Location
-	D, H, M, S *Term // decomposition in Loc (nil if not available)
+	D, H, M, S *Term // calendar decomposition valid in zones whose offset is DecOff (nil if not available)
+	DecOff     int64
 }
 
 func i64c(v int64) *Term { return mkConst(v, 64, true) }
@@ -54,9 +55,10 @@ func fmod(a *Term, k int64) *Term {
 }
 
 func (st *SymTime) decompose(m *Machine) {
-	if st.D != nil {
+	if st.D != nil && st.DecOff == zoneOffset(m, st.Loc) {
 		return
 	}
+	st.DecOff = zoneOffset(m, st.Loc)
 	local := mkArith("add", st.Abs, i64c(zoneOffset(m, st.Loc)))
 	sod := fmod(local, 86400)
 	st.D = fdiv(local, 86400)
@@ -112,7 +114,7 @@ func symDate(m *Machine, a []Val) (Val, bool) {
 	st := &SymTime{Abs: abs, Loc: loc}
 	// the decomposition is only canonical when h,m,s are in range; keep it when they are known to be
 	if inRange(m, H, 0, 23) && inRange(m, M, 0, 59) && inRange(m, S, 0, 59) {
-		st.D, st.H, st.M, st.S = D, H, M, S
+		st.D, st.H, st.M, st.S, st.DecOff = D, H, M, S, zoneOffset(m, loc)
 	}
 	return st, true
 }
@@ -178,7 +180,7 @@ func symTimeMethod(m *Machine, fr *frame, name string, st *SymTime, a []Val) Val
 		n := toTermW(a[2], 64, true)
 		r := &SymTime{Abs: mkArith("add", st.Abs, mkArith("mul", n, i64c(86400))), Loc: st.Loc}
 		if st.D != nil {
-			r.D, r.H, r.M, r.S = mkArith("add", st.D, n), st.H, st.M, st.S
+			r.D, r.H, r.M, r.S, r.DecOff = mkArith("add", st.D, n), st.H, st.M, st.S, st.DecOff
 		}
 		return r
 	case "Add":
@@ -202,10 +204,7 @@ func symTimeMethod(m *Machine, fr *frame, name string, st *SymTime, a []Val) Val
 }
 
 func symIn(m *Machine, st *SymTime, loc *time.Location) Val {
-	if loc == st.Loc || zoneOffset(m, loc) == zoneOffset(m, st.Loc) {
-		r := *st
-		r.Loc = loc
-		return &r
-	}
-	return &SymTime{Abs: st.Abs, Loc: loc}
+	r := *st // the cached decomposition travels with the value and is used again in zones of the same offset
+	r.Loc = loc
+	return &r
 }
